@@ -36,6 +36,10 @@ CHECKS = {
    technique=TECH + "readers against writers/flusher on tiny devices with immediate block reuse; per-read genuineness oracle plus device-side monitor of writes over pinned extents",
    text="Persistent stores on 8-16 block devices (freed blocks are reused at once), cache on and off, single- and multi-block values: readers (get, get_bytes, range, compare-and-swap, increment) race writers, deleters, TTL rewrites, explicit flushes and the background workers, with yield sites around pin / sector load / pread / identity check and between retire, marker write and release. Each read must return byte-for-byte a value written to that key whose generation was current inside the call interval, not-found only if the key was absent/expired inside it, StaleExtent only if a modification overlapped; the simulated device flags any write that overlaps an extent a reader has pinned.",
    note="Same trust base as C07; pin events come from the hook in load_value_from_disk / prepare_deferred_record_data."),
+ "C09": dict(engine="fault", level="fault_enumeration", ref="DESIGN.md 5 C09",
+   technique=TECH + "device faults enumerated against the fault-free device trace (each write/fsync call failing before/after the bytes reached the device, pairs, persistent failure) plus random short writes, ENOSPC and read errors; healing phase",
+   text="Each sampled workload is first run fault-free to record its device trace, then re-run with one fault per chosen device call (quick: sampled calls; thorough: every write and fsync call x {fail-before, fail-after} for a third of the workloads), with pairs, with persistent failure from a call on, and with random faults (short writes, ENOSPC, failed fsync whose writes become limbo, read errors). Oracles: a flush() that returns Ok is checked on the durable image with the independent decoder; after failed flushes every key still reads its latest accepted value; copies of the device as it stands and of what a power loss would leave are recovered in a second handle and must hold, per key, a state no older than the last acknowledged one; after the faults stop, a flush succeeds within three attempts or reports IndeterminateWrite, in which case drop + simulated process restart + reopen must succeed and new writes flush.",
+   note="fsync failure model: pending writes become limbo (readable, never made durable by a later fsync, may or may not be on the platter) until overwritten by later durable writes. io_uring path not exercised."),
  "C10": dict(engine="seq", level="exploration", ref="DESIGN.md 5 C10",
    technique=TECH + "independent decoder of the documented layout applied to the durable image at every acknowledged flush",
    text="After each acknowledged flush of seeded workloads on v1, v2 and v3 devices the durable image (what survives power loss) is decoded by a reader written from the documented layout only; it must contain exactly the model's keys with value, timestamp and expiry, a clear journal and metadata counters equal to the live totals; legacy devices must keep their own record format.",
@@ -51,7 +55,7 @@ CHECKS = {
  "C13": dict(engine="seq", level="exploration", ref="DESIGN.md 5 C13",
    technique=TECH + "exact accounting oracle after every simulated call",
    text="memory_usage() and len() are compared with the model's sum(overhead + key + value) after every call of seeded workloads, including refused writes under tight limits, growing/shrinking updates, expiries and clean restarts.",
-   note="Stage 1 sequential exact accounting; stage 2 concurrent: creators/growers/deleters against tight limits with memory_usage() <= limit evaluated at every scheduling step and exact sums at quiescence."),
+   note="Stage 1 sequential exact accounting; stage 2 concurrent: creators/growers/deleters against tight limits with memory_usage() <= limit evaluated at every scheduling step and exact sums at quiescence; stage 3: accounting after every crash recovery (duplicate generations on disk)."),
  "C14": dict(engine="seq", level="exploration", ref="DESIGN.md 5 C14",
    technique=TECH + "range queries against the ordered reference model on every tier",
    text="Range queries with arbitrary bounds (empty, extreme, start > end, neighbours of keys) and limits are compared exactly with the reference model on every tier; ordered and hashed index are compared at quiescence.",
@@ -60,10 +64,22 @@ CHECKS = {
    technique=TECH + "exact deadlock detection by the scheduler (no enabled thread, no pending timer) and bounded virtual-time liveness on contention workloads",
    text="Contention workloads (concurrent flush() callers with writers and readers on the same keys, tiny/full devices, multi-block values, 1-3 shards and workers) under all scheduler strategies; because shimmed locks, channels, sleeps and joins are scheduling points, a thread can be parked while holding the device or free-space lock, so lock-order inversions and lost wake-ups are reachable. The scheduler reports deadlock exactly (with the wait-for state of every thread), any call running longer than 120 virtual seconds, and a real hang is caught by a wall-clock watchdog and confirmed by replay.",
    note="Stage 1 of the design (fault-free contention); failing/dead-device stages are added with the fault engine."),
+ "C15": dict(engine="migr", level="exploration", ref="DESIGN.md 5 C15",
+   technique=TECH + "legacy images from simulated compatibility-mode workloads (clean and crashed) and from the independent writer, migrate() under a simulated destination device with injected faults",
+   text="Sources are v1/v2 images produced by the current tree in compatibility mode under the simulator (clean closes and crash images with active journals and pending retirements) and images synthesised by the independent writer (duplicates in both disk orders, expired newest generations, multi-block records, >256 records, new-style and ambiguous legacy markers). migrate() runs with and without the opt-in, with an existing destination and with write/fsync faults injected into the destination device. Checked: zero writes to and unchanged bytes of the source; on error nothing at the destination path and no temporary sibling; on success the destination decodes (independent codec) as v3 with exactly the source's keys, values, timestamps and absolute expiries, equals a TTL-disabled recovery of a copy of the source, and survives a power loss right after migrate() returned; ambiguous markers fail unless allowed.",
+   note="The feox-migrate binary's argument handling is not simulated (covered by the repository's CLI tests)."),
+ "C17": dict(engine="corr", level="exploration", ref="DESIGN.md 5 C17",
+   technique=TECH + "stored-data corruption as the injected fault: field-aware forging (with recomputed checksums/tokens), bit flips, block swaps/duplication/truncation, random images, invalid sizes",
+   text="Valid v1/v2/v3 images from simulated workloads (clean and crashed: live, retired, journalled, multi-block extents) are damaged by 1-6 edits chosen from: bit flips (anywhere / reserved area / record heads), block swap, duplication, zeroing, truncation, forged key/value lengths, timestamps, expiries, tokens (optionally re-stamped so the token check passes), forged retirement markers, forged journal slots (counts, states, extents, generations, with or without a valid checksum), forged metadata (version, sizes, generation, checksum flag), broken signatures, legacy markers; plus random images and invalid sizes. Opening runs under catch_unwind inside the simulator (step budget and virtual-time liveness bound catch loops): it must return Ok or Err; an opened store must answer a probe workload and be dropped without panicking; a file without valid FeOx metadata or of invalid size must be rejected with zero device writes. Built with overflow checks and debug assertions on.",
+   note="Allocation failure is not injected; a worker killed by the OS (abort) is reported via the crash path."),
+ "C19": dict(engine="live", level="exploration", ref="DESIGN.md 5 C19",
+   technique=TECH + "virtual-time bounded-liveness: no explicit flush, durable image checked 1 virtual second after a modification, retirement after 2, for every shards x workers configuration",
+   text="No client ever calls flush(). For shards 1-8 x workers 1-8 (the two CPU-count reads are set independently), 1-4 single-writer clients issue small workloads, 1100-1700-entry bursts of 1-byte values (crossing the 1024-entry batch) or 60+ virtual seconds of steady traffic. One virtual second after the last modification the durable image, decoded independently and recovered in a fresh handle, must hold every key's final state; after two virtual seconds the retirement queue and buffers must be empty, the partition invariant must hold and no superseded generation may remain on the device; in the steady variant every modification older than one second must be durable at every one-second checkpoint.",
+   note="Virtual I/O latency: 10-20 us per read/write, 0.5 ms per fsync; fault-free."),
  "C16": dict(engine="seq", level="exploration", ref="DESIGN.md 5 C16",
    technique=TECH + "differential execution of the same tape with cache on and off under a frozen clock",
    text="The same operation tape is executed twice inside one simulated run, cache on and cache off, with the wall clock frozen so results are a function of the tape alone; the two result sequences must be identical call by call.",
-   note="Stage 1 = part (a) differential; stage 2 = part (b): concurrent readers/writers on offloaded keys with the cache on (a stale hit is a read of a generation that was not current during the call). Part (c) (ClockCache alone) is added with the cache engine."),
+   note="Stage 1 = part (a) differential; stage 2 = part (b): concurrent readers/writers on offloaded keys with the cache on (a stale hit is a read of a generation that was not current during the call). Stage 3 = part (c): ClockCache alone with 1 MB / 0-1 MB watermarks and 1 KB-500 KB values, sequentially against a model (exact accounting via the entry observer, no hit after remove, eviction reaches the low watermark, referenced entries survive when unreferenced ones suffice) and under 2-3 threads (accounting at quiescence, only genuine values)."),
 }
 
 NOT_APPLICABLE = {
